@@ -154,6 +154,9 @@ func vfC26Slow(rec *evid.Rec, slow string, cache bool) {
 }
 
 func vfC26Dir(rec *evid.Rec, di, n int, nameKind string, cache bool) {
+	// every other directory on a backend that lists in descending name order
+	refs.ReverseListings.Store((di+len(nameKind))%2 == 1)
+	defer refs.ReverseListings.Store(false)
 	fs := refs.New()
 	fs.PlantDir("/d", 0755, 0, 0)
 	var names []string
@@ -178,6 +181,12 @@ func vfC26Dir(rec *evid.Rec, di, n int, nameKind string, cache bool) {
 		}
 	}
 	sort.Strings(names)
+	order := append([]string(nil), names...)
+	if refs.ReverseListings.Load() {
+		for i, j := 0, len(order)-1; i < j; i, j = i+1, j-1 {
+			order[i], order[j] = order[j], order[i]
+		}
+	}
 	// the export's transfer size is a READ/WRITE matter: listings honour the client's count whatever it is
 	ts := []int{0, 256, 1000, 0, 4096, 100}[(di*2+len(nameKind))%6]
 	srv, err := vfNewSrv(fs, ExportOptions{AttrCacheTimeout: map[bool]time.Duration{false: 1, true: 5e9}[cache], EnableDirCache: cache, TransferSize: ts})
@@ -254,7 +263,7 @@ func vfC26Dir(rec *evid.Rec, di, n int, nameKind string, cache bool) {
 					lcls = "/limit-below-fixed-part"
 				}
 				// what fits?
-				remaining := names[min64i(len(got), len(names)):]
+				remaining := order[min64i(len(got), len(order)):] // in the backend's listing order
 				oneFits := false
 				if len(remaining) > 0 {
 					if plus {
